@@ -7,6 +7,7 @@ import (
 	"os"
 	"path"
 	"path/filepath"
+	"sort"
 	"strconv"
 	"strings"
 
@@ -288,8 +289,14 @@ func (f File) Validate() error {
 			structTypeUsage[stName] = usage
 		}
 	}
-	for stName, usage := range structTypeUsage {
-		if usage[stName] {
+	// report the same struct of a cycle on every call: map iteration order is random
+	stNames := make([]string, 0, len(structTypeUsage))
+	for stName := range structTypeUsage {
+		stNames = append(stNames, stName)
+	}
+	sort.Strings(stNames)
+	for _, stName := range stNames {
+		if structTypeUsage[stName][stName] {
 			return fmt.Errorf("struct %s recursively includes itself as a required field", stName)
 		}
 	}
